@@ -526,3 +526,233 @@ func ruleSignedField(w *World, r *Report) {
 		r.add("SIGNED-FIELD", "module scan", "-", Discharged, "no digit-run tokenizer and no unsigned parse over the components of an ID")
 	}
 }
+
+// LENCAP: an ID string is never refused for its length alone.  Five int64
+// fields separated by "/" can be 2+1+20+1+20+1+2+1+20 = 68 characters long with
+// zooms in 0..35 (the vertical index is unbounded and may carry a minus sign),
+// so a cap below that refuses well-formed IDs -- typically the ones with a
+// negative vertical index of many digits, because the sign was not counted.
+func ruleLenCap(w *World, r *Report) {
+	r.Rule("LENCAP", "no function refuses an ID string because it is longer than a constant below 68 characters (the length of a well-formed extended ID with zooms in 0..35 and 64-bit indexes, minus sign included): the vertical index is unbounded")
+	n := 0
+	e := scFor(w)
+	for _, f := range w.ModFuncs {
+		if f.Synthetic != "" || f.Blocks == nil {
+			continue
+		}
+		can := w.IsCanary(f)
+		name := w.FuncName(f)
+		ord := 0
+		for _, blk := range f.Blocks {
+			t, fl, ifi := ifSuccs(blk)
+			if ifi == nil {
+				continue
+			}
+			c, ok := ifi.Cond.(*ssa.BinOp)
+			if !ok {
+				continue
+			}
+			// len(p) > K / len(p) >= K (failing on true), K < len(p) ...
+			var lenSide, kSide ssa.Value
+			op := c.Op
+			if isLenOfStringParam(f, c.X) {
+				lenSide, kSide = c.X, c.Y
+			} else if isLenOfStringParam(f, c.Y) {
+				lenSide, kSide = c.Y, c.X
+				op = flipOp(op)
+			}
+			if lenSide == nil {
+				continue
+			}
+			k, isK := constInt(kSide)
+			if !isK {
+				continue
+			}
+			var longSide *ssa.BasicBlock // the side taken by strings longer than the bound
+			switch op {
+			case token.GTR, token.GEQ:
+				longSide = t
+			case token.LSS, token.LEQ:
+				longSide = fl
+			default:
+				continue
+			}
+			if op == token.GEQ || op == token.LSS {
+				k-- // len >= K refuses from K on: the longest accepted length is K-1
+			}
+			if k < 9 || k >= 68 {
+				continue
+			}
+			// the long side leads to failure only
+			reach := simulateFrom(longSide, blk, nil, noOracle)
+			any, all := false, true
+			for _, ret := range returnsOf(f) {
+				if reach[ret.Block()] {
+					any = true
+					if !e.isFailureReturn(f, ret) {
+						all = false
+					}
+				}
+			}
+			if !any || !all {
+				continue
+			}
+			ord++
+			if !can {
+				n++
+			}
+			r.Add(Obligation{Rule: "LENCAP", Key: fmt.Sprintf("LENCAP / %s / cap#%d", name, ord), Pos: w.Pos(c.Pos()), Status: Violated, Canary: can,
+				Detail: fmt.Sprintf("a string longer than %d characters is refused (%s); a well-formed extended ID can be up to 68 characters long (e.g. a negative vertical index of many digits), so valid IDs are rejected", k, shortInstr(c))})
+		}
+	}
+	if n == 0 {
+		r.add("LENCAP", "module scan", "-", Discharged, "no function refuses a string parameter for its length alone")
+	}
+}
+
+func isLenOfStringParam(f *ssa.Function, v ssa.Value) bool {
+	c, ok := resolve(v).(*ssa.Call)
+	if !ok || builtinName(c) != "len" || len(c.Call.Args) != 1 {
+		return false
+	}
+	p, ok := resolve(c.Call.Args[0]).(*ssa.Parameter)
+	return ok && p.Parent() == f && isStringType(p.Type())
+}
+
+// INDEX-SIGN: a table indexed by a signed parameter behind an upper-bound test
+// only: a negative value passes the test and the index expression panics.
+func ruleIndexSign(w *World, r *Report) {
+	r.Rule("INDEX-SIGN", "a table indexed by a signed parameter (an option or enum value) is guarded on both sides: an upper-bound test alone lets every negative value through to the index expression, which panics")
+	n := 0
+	for _, f := range w.ModFuncs {
+		if f.Synthetic != "" || f.Blocks == nil {
+			continue
+		}
+		can := w.IsCanary(f)
+		name := w.FuncName(f)
+		ord := 0
+		fromParam := func(v ssa.Value) *ssa.Parameter {
+			for i := 0; i < 4; i++ {
+				switch x := v.(type) {
+				case *ssa.Convert:
+					// a conversion to an unsigned type makes negatives huge: the upper test covers them
+					if bt, ok := x.Type().Underlying().(*types.Basic); ok && bt.Info()&types.IsUnsigned != 0 {
+						return nil
+					}
+					v = x.X
+					continue
+				case *ssa.ChangeType:
+					v = x.X
+					continue
+				case *ssa.Parameter:
+					if isSignedInt(x.Type()) {
+						return x
+					}
+				}
+				break
+			}
+			return nil
+		}
+		instrs(f, func(in ssa.Instruction) {
+			var idx ssa.Value
+			var at *ssa.BasicBlock
+			switch x := in.(type) {
+			case *ssa.IndexAddr:
+				idx, at = x.Index, x.Block()
+			case *ssa.Index:
+				idx, at = x.Index, x.Block()
+			default:
+				return
+			}
+			if _, isK := constInt(idx); isK {
+				return
+			}
+			p := fromParam(idx)
+			if p == nil {
+				return
+			}
+			upper, lower := "", false
+			for _, blk := range f.Blocks {
+				t, fl, ifi := ifSuccs(blk)
+				if ifi == nil {
+					continue
+				}
+				c, ok := ifi.Cond.(*ssa.BinOp)
+				if !ok {
+					continue
+				}
+				var other ssa.Value
+				op := c.Op
+				unsignedCmp := false
+				side := func(v ssa.Value) bool {
+					if cv, ok := v.(*ssa.Convert); ok {
+						if bt, ok := cv.Type().Underlying().(*types.Basic); ok && bt.Info()&types.IsUnsigned != 0 {
+							if q := fromParamLoose(cv.X); q == p {
+								unsignedCmp = true
+								return true
+							}
+						}
+					}
+					return fromParam(v) == p
+				}
+				if side(c.X) {
+					other = c.Y
+				} else if side(c.Y) {
+					other = c.X
+					op = flipOp(op)
+				} else {
+					continue
+				}
+				if unsignedCmp {
+					lower = true
+				}
+				k, isK := constInt(other)
+				switch op {
+				case token.LSS, token.LEQ, token.GTR, token.GEQ:
+					if isK && k <= 0 {
+						lower = true
+					} else if at != nil && (blk.Dominates(at)) && (t == at || fl == at || blockDominatedByEdge(f, blk, t, at) || blockDominatedByEdge(f, blk, fl, at)) {
+						upper = w.Pos(c.Pos())
+					}
+				case token.EQL, token.NEQ:
+					// membership by equality chain: each admitted value is named
+					lower = true
+				}
+			}
+			if upper == "" {
+				return
+			}
+			ord++
+			if !can {
+				n++
+			}
+			key := fmt.Sprintf("INDEX-SIGN / %s / index#%d", name, ord)
+			if lower {
+				r.Add(Obligation{Rule: "INDEX-SIGN", Key: key, Pos: w.Pos(in.Pos()), Status: Discharged, Canary: can, Detail: "the index " + p.Name() + " is bounded on both sides"})
+			} else {
+				r.Add(Obligation{Rule: "INDEX-SIGN", Key: key, Pos: w.Pos(in.Pos()), Status: Violated, Canary: can,
+					Detail: "the table is indexed by the signed parameter " + p.Name() + " behind the upper-bound test at " + upper + " only: every negative value passes the test and the index expression panics (" + shortInstr(in) + ")"})
+			}
+		})
+	}
+	if n == 0 {
+		r.add("INDEX-SIGN", "module scan", "-", Discharged, "no table is indexed by a signed parameter behind a one-sided bound test")
+	}
+}
+
+func fromParamLoose(v ssa.Value) *ssa.Parameter {
+	for i := 0; i < 4; i++ {
+		switch x := v.(type) {
+		case *ssa.Convert:
+			v = x.X
+			continue
+		case *ssa.ChangeType:
+			v = x.X
+			continue
+		case *ssa.Parameter:
+			return x
+		}
+		break
+	}
+	return nil
+}
